@@ -20,6 +20,7 @@ import (
 	"google.golang.org/protobuf/proto"
 	"google.golang.org/protobuf/reflect/protodesc"
 	"google.golang.org/protobuf/reflect/protoreflect"
+	"google.golang.org/protobuf/reflect/protoregistry"
 	"google.golang.org/protobuf/types/descriptorpb"
 )
 
@@ -312,7 +313,8 @@ func doOp(s *linker.Symbols, files map[int64]protoreflect.FileDescriptor, op map
 //	conc:    files, parts (list of op lists, one goroutine each), spin (extra lookup goroutines), unames, uexts
 //	         -> per part the op results, final dump and lookups
 //	compile: sources (path -> text), parts (list of lists of paths; one Compiler.Compile each, sharing Symbols),
-//	         concurrent bool, unames, uexts -> per part the canonical error, final lookups
+//	         concurrent bool, reuse bool (sequential: later parts resolve already compiled files to those results),
+//	         unames, uexts -> per part the canonical error, final lookups
 func symbolsCase(in map[string]any) map[string]any {
 	switch vhlib.Str(in, "mode") {
 	case "seq":
@@ -412,13 +414,44 @@ func symbolsCase(in map[string]any) map[string]any {
 		s := &linker.Symbols{}
 		parts := vhlib.List(in, "parts")
 		results := make([]any, len(parts))
-		run := func(pi int, paths []string) {
-			comp := protocompile.Compiler{
-				Resolver: &protocompile.SourceResolver{Accessor: protocompile.SourceAccessorFromMap(srcs)},
-				Symbols:  s,
+		// with reuse (sequential only), a later compilation resolves the files that an earlier one
+		// has compiled to those very results instead of compiling them again from source
+		reuse := vhlib.Bool(in, "reuse") && !vhlib.Bool(in, "concurrent")
+		compiled := map[string]linker.File{}
+		var reg func(f linker.File)
+		reg = func(f linker.File) {
+			if _, ok := compiled[f.Path()]; ok {
+				return
 			}
-			_, err := comp.Compile(context.Background(), paths...)
+			compiled[f.Path()] = f
+			imps := f.Imports()
+			for i := 0; i < imps.Len(); i++ {
+				if d := f.FindImportByPath(imps.Get(i).Path()); d != nil {
+					reg(d)
+				}
+			}
+		}
+		run := func(pi int, paths []string) {
+			var res protocompile.Resolver = &protocompile.SourceResolver{Accessor: protocompile.SourceAccessorFromMap(srcs)}
+			if reuse {
+				res = protocompile.CompositeResolver{
+					protocompile.ResolverFunc(func(path string) (protocompile.SearchResult, error) {
+						if f, ok := compiled[path]; ok {
+							return protocompile.SearchResult{Desc: f}, nil
+						}
+						return protocompile.SearchResult{}, protoregistry.NotFound
+					}),
+					res,
+				}
+			}
+			comp := protocompile.Compiler{Resolver: res, Symbols: s}
+			files, err := comp.Compile(context.Background(), paths...)
 			results[pi] = canonErr(err)
+			if reuse && err == nil {
+				for _, f := range files {
+					reg(f)
+				}
+			}
 		}
 		if vhlib.Bool(in, "concurrent") {
 			start := make(chan struct{})
